@@ -169,6 +169,9 @@ func (bd *Header) Deserialization(source *common.ZeroCopySource) error {
 	if eof {
 		return errors.New("[Header] deserialize bookkeepers length error")
 	}
+	if n > source.Len() {
+		return errors.New("[Header] deserialize bookkeepers length error")
+	}
 
 	for i := 0; i < int(n); i++ {
 		buf, eof := source.NextVarBytes()
@@ -187,6 +190,9 @@ func (bd *Header) Deserialization(source *common.ZeroCopySource) error {
 
 	m, eof := source.NextVarUint()
 	if eof {
+		return errors.New("[Header] deserialize sigData length error")
+	}
+	if m > source.Len() {
 		return errors.New("[Header] deserialize sigData length error")
 	}
 
@@ -264,7 +270,7 @@ func (bd *Header) Deserialize(w io.Reader) error {
 		return errors.New("[Header] deserialize bookkeepers length error")
 	}
 
-	for i := 0; i < int(n); i++ {
+	for i := uint64(0); i < n; i++ {
 		buf, err := serialization.ReadVarBytes(w)
 		if err != nil {
 			return errors.New("[Header] deserialize bookkeepers public key error")
@@ -284,7 +290,7 @@ func (bd *Header) Deserialize(w io.Reader) error {
 		return errors.New("[Header] deserialize sigData length error")
 	}
 
-	for i := 0; i < int(m); i++ {
+	for i := uint64(0); i < m; i++ {
 		sig, err := serialization.ReadVarBytes(w)
 		if err != nil {
 			return errors.New("[Header] deserialize sigData error")
